@@ -91,6 +91,40 @@ class _Aug(ast.NodeTransformer):
         return n
 
 
+_FLIP = {ast.Lt: ast.Gt, ast.Gt: ast.Lt, ast.LtE: ast.GtE, ast.GtE: ast.LtE, ast.Eq: ast.Eq, ast.NotEq: ast.NotEq}
+_NEG = {ast.Lt: ast.GtE, ast.GtE: ast.Lt, ast.Gt: ast.LtE, ast.LtE: ast.Gt, ast.Eq: ast.NotEq, ast.NotEq: ast.Eq,
+        ast.Is: ast.IsNot, ast.IsNot: ast.Is, ast.In: ast.NotIn, ast.NotIn: ast.In}
+
+
+class _FlipCmp(ast.NodeTransformer):
+    """a < b  ->  b > a   (single-operator comparisons of side-effect-free operands)"""
+
+    def visit_Compare(self, n):
+        self.generic_visit(n)
+        if len(n.ops) == 1 and type(n.ops[0]) in _FLIP and not any(isinstance(x, ast.Call) for x in ast.walk(n)):
+            return ast.copy_location(ast.Compare(left=n.comparators[0], ops=[_FLIP[type(n.ops[0])]()], comparators=[n.left]), n)
+        return n
+
+
+def negate(t):
+    if isinstance(t, ast.UnaryOp) and isinstance(t.op, ast.Not):
+        return t.operand
+    if isinstance(t, ast.Compare) and len(t.ops) == 1 and type(t.ops[0]) in _NEG:
+        return ast.copy_location(ast.Compare(left=t.left, ops=[_NEG[type(t.ops[0])]()], comparators=t.comparators), t)
+    return ast.copy_location(ast.UnaryOp(op=ast.Not(), operand=t), t)
+
+
+class _InvertIf(ast.NodeTransformer):
+    """if c: A else: B  ->  if not c: B else: A   (only plain if/else, no elif chains)"""
+
+    def visit_If(self, n):
+        self.generic_visit(n)
+        if n.orelse and not (len(n.orelse) == 1 and isinstance(n.orelse[0], ast.If)) \
+                and not (len(n.body) == 1 and isinstance(n.body[0], ast.If)):
+            return ast.copy_location(ast.If(test=negate(n.test), body=n.orelse, orelse=n.body), n)
+        return n
+
+
 def transform(path: Path, kind: str):
     src = path.read_text()
     tree = ast.parse(src)
@@ -98,6 +132,10 @@ def transform(path: Path, kind: str):
         tree = rename_locals(tree)
     elif kind == 'augassign':
         tree = _Aug().visit(tree)
+    elif kind == 'flip-compare':
+        tree = _FlipCmp().visit(tree)
+    elif kind == 'invert-if':
+        tree = _InvertIf().visit(tree)
     ast.fix_missing_locations(tree)
     path.write_text(ast.unparse(tree) + '\n')
 
